@@ -4,3 +4,5 @@ import Spade.Properties.C03
 #print axioms Spade.C03_flip_rule
 #print axioms Spade.C03_flip_fixes
 #print axioms Spade.C03_no_flags
+#print axioms Spade.C03_model_legalize_keeps_flags
+#print axioms Spade.C03_model_legalize_never_flips_constraint
